@@ -107,7 +107,11 @@ func (h *Harness) stepInvariants(quiescent bool) {
 			}
 		}
 	}
-	if !quiescent || cfg.MaxConcurrency != 0 {
+	// With a concurrency limit the clause applies only while the limit is not
+	// holding exports back: at a quiescent point every held slot belongs to an
+	// export call in flight, so fewer calls in flight than slots means a slot
+	// is free.
+	if !quiescent || (cfg.MaxConcurrency != 0 && h.inflightAll >= int(cfg.MaxConcurrency)) {
 		return
 	}
 	// C09 size-trigger: nothing runnable => every shard loop is idle, so what
@@ -371,6 +375,19 @@ func (h *Harness) finalOracles() {
 	}
 
 	// ---- C09 deadline
+	if !h.race && h.end == endDeadlock && (cfg.MaxConcurrency == 0 || h.inflightAll < int(cfg.MaxConcurrency)) {
+		for _, r := range h.reqs {
+			if !r.Enqueued {
+				continue
+			}
+			for _, it := range r.Items {
+				if h.expCount[it.Vid] == 0 {
+					h.violate("C09", "deadline", fmt.Sprintf("item %d accepted at %v is never exported: the system can make no further progress and the concurrency limit is not holding exports back (%d export calls in flight, max_concurrency=%d)", it.Vid, r.EnqVT, h.inflightAll, cfg.MaxConcurrency), nil)
+					break
+				}
+			}
+		}
+	}
 	if faithful && !h.race && cfg.MaxConcurrency == 0 {
 		for _, ex := range h.exports {
 			for _, it := range ex.Items {
@@ -533,6 +550,33 @@ func (h *Harness) checkAdmission() {
 
 // checkContexts decides C18 over the recorded exports and spans.
 func (h *Harness) checkContexts() {
+	// no-skip: the system can make no further progress, items of an accepted
+	// request were never exported, and another caller's context had ended.
+	if h.end == endDeadlock {
+		for _, r := range h.reqs {
+			if !r.Enqueued || r.Ctx == nil {
+				continue
+			}
+			missing := false
+			for _, it := range r.Items {
+				if h.expCount[it.Vid] == 0 {
+					missing = true
+				}
+			}
+			if !missing {
+				continue
+			}
+			if _, ended := r.Ctx.endVT(); ended && r.Ctx.CancelStep >= 0 {
+				continue // its own context was cancelled
+			}
+			for _, c := range h.ctxs {
+				if c != r.Ctx && c.CancelStep >= 0 {
+					h.violate("C18", "no-skip", fmt.Sprintf("items of req#%d (context ctx%d, still alive) are never exported - the system can make no further progress - after another caller's context ctx%d was cancelled", r.Plan.ID, r.Ctx.ID, c.ID), nil)
+					break
+				}
+			}
+		}
+	}
 	spans := map[trace.SpanID]sdktrace.ReadOnlySpan{}
 	for _, sp := range h.rec.Ended() {
 		spans[sp.SpanContext().SpanID()] = sp
